@@ -488,6 +488,7 @@ func c12(p *core.Program, r *core.Report) {
 		rAr   = "result-arity"
 		rIn   = "input-lines-recorded"
 	)
+	intersectionOnBothLinesRule(p, r, "intersection-on-both-lines")
 	r.Rule(rCase, "predicate abstraction over the signs (o1,o2,o3,o4) of the four endpoint-versus-other-segment orientation tests in RobustLineIntersector.computeLineOnLineIntersection (envelope test passed; calls identified by which parameters they receive): for each of the sign vectors exact geometry admits for segments of non-zero length, the class constant that reaches data.intersectionType at the return is NoIntersection iff (o1,o2 both > 0 or both < 0) or (o3,o4 both > 0 or both < 0), otherwise PointIntersection (the all-zero vector is decided by collinear-overlap-table); with the envelope test failed the class is NoIntersection", 60)
 	r.Rule(rCopy, "in every state of the point class in which some orientation is zero, and for every consistent valuation of the endpoint-equality tests, exactly one write reaches intersectionPoints[0], its source is one of the four parameters (a copy, no arithmetic) and that endpoint's orientation against the other segment is zero in the state", 40)
 	r.Rule(rColl, "all four orientations zero: for every weak order of the four endpoints along the common line (p1!=p2, q1!=q2), with envelope membership and coordinate equality bound from the order, the class returned and the parameters reaching intersectionPoints[0..1] are exactly the intersection of the two intervals: disjoint -> NoIntersection; one common point -> PointIntersection with slot 0 at it; otherwise CollinearIntersection with slots 0,1 at the two ends of the overlap", 40)
